@@ -29,6 +29,51 @@ def real_fixed_value(schema):
     return True, v
 
 
+def accepts(schema, value):
+    """Does the schema accept the value?  The answer of validate().  `schema == value`,
+    `schema != value` and validate_or_fail() are public entry points to the same validator; when
+    one of them answers differently, the *deviating* answer is returned, so that the deviation
+    surfaces in whatever clause consumes the observation (on a tree where the entry points agree
+    this is exactly validate())."""
+    import d42
+    try:
+        ok = not d42.validate(schema, value).has_errors()
+    except Exception:
+        return False
+    from d42.declaration import Schema
+    if isinstance(value, Schema):
+        return ok                        # == between two schemas is structural equality
+    try:
+        if bool(schema == value) != ok or bool(schema != value) == ok:
+            return not ok
+    except Exception:
+        pass
+    try:
+        d42.validate_or_fail(schema, value)
+        vof = True
+    except d42.ValidationException:
+        vof = False
+    except Exception:
+        vof = ok                         # rendering the message failed: no information (C08's subject)
+    return ok if vof == ok else not ok
+
+
+def exercise(schema):
+    """every public, supposedly pure use of a schema: renderings of the schema and of its props,
+    generation, validation, the combinators and helpers that return new schemas"""
+    import d42
+    from d42.utils import make_required
+    for call in (lambda: repr(schema), lambda: repr(schema.props), lambda: str(schema.props),
+                 lambda: d42.represent(schema), lambda: d42.fake(schema), lambda: d42.validate(schema, None),
+                 lambda: schema == None, lambda: make_required(schema), lambda: make_required(schema, []),  # noqa: E711
+                 lambda: schema + schema, lambda: schema | d42.schema.none, lambda: list(schema),
+                 lambda: d42.substitute(schema, d42.fake(schema)), lambda: hash(schema.props)):
+        try:
+            call()
+        except Exception:
+            pass
+
+
 def try_abs(fn, x):
     """(rep, [abstract]) -- rep False when x is outside the abstract domain"""
     try:
